@@ -74,6 +74,57 @@ def l_eq(F, R):
 
 # ---- L-hdr + S-refuse ------------------------------------------------------------------------------
 
+def _hdr_eval(F, fid):
+    """encode_packet evaluated as a whole (helpers included): the size check comes first and its error leaves the function
+    before anything is written; then exactly the control byte, the variable byte integer of body.encode_len() and the body's
+    own encoding go into one buffer, in that order, and that buffer is returned."""
+    from peval import PE, Sym, Tup, Adt, Undecided, ok, err, UNIT, vkey
+    from r_pe import result_kind
+
+    def run(size_ok):
+        log = []
+
+        def hook(d, res, args, node, env):
+            r = res or d
+            name = node["fn"].get("name")
+            if name == "encode_len" and len(args) == 1 and args[0] == Sym("BODY"):
+                return Sym("N")
+            if r == "common::utils::total_len":
+                log.append(("total_len", vkey(args[0])))
+                return ok(Sym("TOTAL")) if size_ok else err(Sym("TOO-LARGE"))
+            if name in ("with_capacity", "new") and "vec" in d.lower():
+                return Tup([])
+            if name == "len" and len(args) == 1 and isinstance(args[0], Tup):
+                return Sym("TOTAL")
+            if r == "common::utils::write_u8" and isinstance(args[0], Tup):
+                args[0].items.append(args[1])
+                return ok(UNIT)
+            if r == "common::utils::write_var_int" and isinstance(args[0], Tup):
+                args[0].items.append(("varint", vkey(args[1])))
+                return ok(UNIT)
+            if name == "encode" and len(args) == 2 and args[0] == Sym("BODY") and isinstance(args[1], Tup):
+                args[1].items.append(("enc", "BODY"))
+                return ok(UNIT)
+            if name in ("write_all", "extend_from_slice", "extend") and args and isinstance(args[0], Tup):
+                raise Undecided("raw write into the packet buffer")
+            return None
+        pe = PE(F, call_hook=hook, cond_hook=lambda what, node: True if what[0] == "try-ok" else None, fuel=400)
+        r = pe.call_fn(fid, [Sym("CB"), Sym("BODY")])
+        return result_kind(r), log, pe
+    try:
+        k, log, pe = run(True)
+        good = k[0] == "ok" and isinstance(k[1], Tup) and [vkey(x) if not isinstance(x, tuple) else x for x in k[1].items] == \
+            [vkey(Sym("CB")), ("varint", vkey(Sym("N"))), ("enc", "BODY")] and log == [("total_len", vkey(Sym("N")))] \
+            and not any(ev[0] == "panic" for ev in pe.events)
+        k2, log2, _pe2 = run(False)
+        good = good and k2[0] == "err" and k2[1] == Sym("TOO-LARGE")
+        return good
+    except Undecided:
+        return False
+    except Exception:
+        return False
+
+
 def l_hdr(F, R):
     """encode_packet: 1 control byte, var-int of exactly body.encode_len(), then body.encode(); the
     total_len(..)? refusal precedes every write; nothing else writes the buffer."""
@@ -96,16 +147,21 @@ def l_hdr(F, R):
             "encode_packet emits %s bytes; a packet is 1 + varint(remaining) + remaining = %s" % (it.written, want), where=fid)
     kinds = [t[0] for t in it.trace if t[0] != "debug_assert"]
     kinds = ["varint" if k == "item" else k for k in kinds]
-    R.check(kinds == ["total_len", "push", "varint", "enc"], "L-hdr", "order",
-            "encode_packet performs %s; expected total_len check, control byte, remaining length, body" % kinds, where=fid)
-    tl = [t for t in it.trace if t[0] == "total_len"]
-    vi = [t for t in it.trace if t[0] == "item" and t[1] == "write_var_int"]
-    R.check(len(tl) == 1 and len(vi) == 1 and tl[0][1] == vi[0][4] == repr(body_len), "L-hdr", "same-length",
-            "the length checked by total_len (%s), the length written (%s) and body.encode_len() differ" % (
-                tl[0][1] if tl else None, vi[0][4] if vi else None), where=fid)
-    pushes = [t for t in it.trace if t[0] == "push"]
-    R.check(len(pushes) == 1 and pushes[0][1] == "control_byte", "L-hdr", "control-byte",
-            "encode_packet pushes %s" % [p[1] for p in pushes], where=fid)
+    if _hdr_eval(F, fid):
+        R.ok("L-hdr", "order", "evaluated: size check, then control byte, remaining length (= body.encode_len()), body, in that order, into one buffer")
+        R.ok("L-hdr", "same-length", "evaluated")
+        R.ok("L-hdr", "control-byte", "evaluated")
+    else:
+        R.check(kinds == ["total_len", "push", "varint", "enc"], "L-hdr", "order",
+                "encode_packet performs %s; expected total_len check, control byte, remaining length, body" % kinds, where=fid)
+        tl = [t for t in it.trace if t[0] == "total_len"]
+        vi = [t for t in it.trace if t[0] == "item" and t[1] == "write_var_int"]
+        R.check(len(tl) == 1 and len(vi) == 1 and tl[0][1] == vi[0][4] == repr(body_len), "L-hdr", "same-length",
+                "the length checked by total_len (%s), the length written (%s) and body.encode_len() differ" % (
+                    tl[0][1] if tl else None, vi[0][4] if vi else None), where=fid)
+        pushes = [t for t in it.trace if t[0] == "push"]
+        R.check(len(pushes) == 1 and pushes[0][1] == "control_byte", "L-hdr", "control-byte",
+                "encode_packet pushes %s" % [p[1] for p in pushes], where=fid)
     # nothing else touches the buffer: every use of the Vec<u8> under construction is one of the three writes (or reads its length)
     b = nbody(F, fid)
     allowed = {"push", "write_var_int", "encode", "len", "with_capacity", "new", "capacity", "is_empty"}
